@@ -9,7 +9,7 @@ for name in names:
     if only and not any(o in name for o in only):
         continue
     meta = json.load(open(os.path.join(ROOT, "seeded", name, "meta.json")))
-    prop = meta["breaks_property"]
+    prop = meta.get("check_with", meta["breaks_property"])
     t0 = time.time()
     r = subprocess.run([os.path.join(ROOT, "evalmut.py"), os.path.join(ROOT, "seeded", name, "patch.diff"), prop, "--skip-suite"],
                        cwd=ROOT, stdout=subprocess.PIPE, stderr=subprocess.STDOUT, text=True)
@@ -17,7 +17,10 @@ for name in names:
     cls = ""
     for l in r.stdout.splitlines():
         if l.startswith(("CAUGHT", "MISSED", "UNSURE", "PATCH")):
-            verdict = l.split()[0]
+            if verdict != "CAUGHT":
+                verdict = l.split()[0]
+            if l.startswith("CAUGHT"):
+                verdict = "CAUGHT by " + l.split()[1]
         if "class=" in l and not cls:
             cls = l.strip().split(" detail=")[0].replace("class=", "")
         if "scenario=" in l and not cls:
@@ -30,4 +33,4 @@ with open(os.path.join(ROOT, "seeded", "RESULTS.md"), "w") as f:
     f.write("| seeded change | property | quick check | first violation class | seconds |\n|---|---|---|---|---|\n")
     for name, prop, verdict, cls, dt in rows:
         f.write("| %s | %s | %s | %s | %.0f |\n" % (name, prop, verdict, cls, dt))
-print("caught %d of %d" % (sum(1 for r in rows if r[2] == "CAUGHT"), len(rows)))
+print("caught %d of %d" % (sum(1 for r in rows if r[2].startswith("CAUGHT")), len(rows)))
